@@ -690,7 +690,7 @@ func c27Worker(w *WorkerCtx) {
 				cu, _ := json.Marshal(tr)
 				vc := v
 				rf := &ReplayFile{Property: "C27", Oracle: v.Oracle, VerifSeed: int64(w.Seed), Tier: w.Tier, Minimised: true, Kind: "c27", Custom: cu, Violation: &vc}
-				res.Replay = WriteReplay(filepath.Join(verifDir(), "replay"), rf, sanitize(fmt.Sprintf("%s-%s-%s", tr.Mutation, tr.Engine, tr.Via)))
+				res.Replay = WriteReplay(filepath.Join(outDir(), "replay"), rf, sanitize(fmt.Sprintf("%s-%s-%s", tr.Mutation, tr.Engine, tr.Via)))
 				res.Violations[0], res.Violations[len(res.Violations)-1] = res.Violations[len(res.Violations)-1], res.Violations[0]
 			}
 		}
